@@ -91,7 +91,7 @@ def shape_corpus():
 
 def run(ctx):
     rng = ctx.rng
-    nprog = ctx.scale(1200, 12000)
+    nprog = ctx.scale(1200, 3600)
     jobs, meta = [], {}
     for prog, queries in shape_corpus():
         jid = "j%d" % len(jobs)
